@@ -64,6 +64,39 @@ def _old_gen_nodes(n):
     return g
 
 
+def h_opl_roundtrip(I, job):
+    """one object with one symbolic field through OPLOutputBlock and opl_parse_line; dumps of the original and of the parsed object must agree"""
+    kind = job['kind']; md = job['md']; symf = job['field']; base = list(job['values'])
+    fm = I.new_obj(8 * 8, 'fields', 'heap')
+    for k in range(8):
+        v = base[k] if k < len(base) else 0
+        if k == symf:
+            lo, hi = job['range']
+            v = I.named_signed('field', 64, lo, hi) if I.mode == 'INT' else I.named('field', 64)
+        I.store(fm + 8 * k, i64, v if isinstance(v, Sym) else v & ((1 << 64) - 1))
+    cap = 512
+    o1 = I.new_obj(cap, 'dump1', 'heap'); l1 = I.new_obj(4, 'l1', 'heap'); o2 = I.new_obj(cap, 'dump2', 'heap'); l2 = I.new_obj(4, 'l2', 'heap'); txt = I.new_obj(256, 'text', 'heap')
+    rc = I.concretize(I.call('@verif_opl_roundtrip', [kind, fm, md, o1, l1, o2, l2, cap, txt, 256]), 'rc'); I.observe('rc', rc)
+    if rc != 0: raise Finding('reader-rejects', 'the OPL parser rejects (rc=%d) the line the OPL writer produced' % rc)
+    n1 = I.concretize(I.load(l1, i32), 'len1'); n2 = I.concretize(I.load(l2, i32), 'len2'); I.observe('lens', (n1, n2))
+    if md == 31:
+        if n1 != n2: raise Finding('roundtrip', 'the parsed object has a different shape (%d vs %d dump bytes)' % (n2, n1))
+        k = 0
+        while k < n1:
+            if k + 8 <= n1:
+                a, b = I.load(o1 + k, i64), I.load(o2 + k, i64)
+                if isinstance(a, Sym) or isinstance(b, Sym): I.obligation(I.icmp('eq', 64, a, b), 'roundtrip', 'a field differs after writing and reading the object as OPL')
+                elif a != b: raise Finding('roundtrip', 'a field differs after writing and reading the object as OPL (dump offset %d)' % k)
+                k += 8
+            else:
+                if I.concretize(I.load(o1 + k, i8), 'b') != I.concretize(I.load(o2 + k, i8), 'b'): raise Finding('roundtrip', 'a string differs after the OPL round trip')
+                k += 1
+    else:
+        # reduced metadata: id (word 1) must survive, dropped fields come back as defaults
+        I.obligation(I.icmp('eq', 64, I.load(o1 + 8, i64), I.load(o2 + 8, i64)), 'roundtrip', 'id differs after the OPL round trip with reduced metadata')
+    I.reach('end')
+
+
 A, B, C = (-64, 63), (64, 8191), (1 << 27, (1 << 34) - 1)          # signed value ranges whose zig-zag varint has 1, 2 and 5 bytes
 NEG = (-(1 << 34), -(1 << 27) - 1)
 def K(a, b): return ((a, a), (b - a, b - a))      # concrete value a for node 0, b for node 1
@@ -104,7 +137,18 @@ def harnesses(tier):
     mds = [(15, 1), (0, 0), (5, 1), (10, 0)] if q else [(m, v) for m in range(16) for v in (0, 1)]
     n = 2 if q else 3
     jobs = [dict(n=n, md=m, visible_flag=v, classes=CLASSES[c], cname=c) for c in CLASSES for (m, v) in mds]
+    I63 = (1 << 63) - 1; M6 = 10 ** 6
+    def both(kind, field, lo, hi, values, md=31):
+        # symbolic over a 6-digit range (the digit loops of a 64-bit value are beyond the solver: 5 s per query), concrete at the type boundaries
+        return [dict(kind=kind, md=md, field=field, range=(max(lo, -M6), min(hi, M6)), values=values), dict(kind=kind, md=md, field=field, range=(lo, lo), values=values), dict(kind=kind, md=md, field=field, range=(hi, hi), values=values)]
+    node = [5, 3, 1262304000, 77, 9, 1, 123456789, -87654321]
+    ways = [9, 1, 5, 6]; cs = [4, 1262304000, 1262305000, 3, 17, 10, 20, 30]
+    opl = both(0, 0, -I63, I63, node) + both(0, 3, 0, (1 << 32) - 1, node) + both(0, 4, 0, (1 << 31) - 1, node) + both(0, 0, -I63, I63, node, md=0) + both(3, 0, 0, (1 << 32) - 1, cs) + both(3, 4, 0, (1 << 32) - 1, cs)
     return [
+        Harness('opl_object_roundtrip', 'codec', h_opl_roundtrip, mode='INT', jobs=opl if not q else opl[0:3] + opl[3:4] + opl[12:15], native_ok=True,
+                tests=[dict(_job=0, field=12345)],
+                desc='one node / way / relation / changeset with user, tags (values containing space and =), roles through OPLOutputBlock (real writer) and opl_parse_line (real parser); one numeric field at a time is symbolic over a 6-digit range and concrete at its type boundaries (object id, changeset, uid, changeset id, num_changes; version, coordinates and references of ways / relations stay concrete: their bit-field and packed-word handling is outside the integer encoding, coordinates as text are C13): the traversal dump of the parsed object equals that of the original',
+                bounds='one object per run, one symbolic field per job, the other fields concrete; timestamps concrete', wall=900),
         Harness('pbf_dense_block_roundtrip', 'codec', h_pbf_nodes, jobs=jobs, testgen=lambda rnd: [dict(_job=0, **t) for t in gen_nodes(n, 'small')(rnd)],
                 desc='%d nodes with symbolic id / version / timestamp / changeset / uid / visible / location through PrimitiveBlock::add_dense_node + DenseNodes::serialize + SerializeBlob (no compression), then length prefix, decode_blob_header, decode_blob and PBFPrimitiveBlockDecoder: every field comes back identical (or as its default when the metadata option drops it); the reader accepts what the writer wrote' % n,
                 bounds='%d nodes per block; id / version / changeset / uid / visible symbolic inside four magnitude classes; timestamps and coordinates concrete boundary values per class (their x1000/1000 and x100/100 conversions are 64-bit multiply/divide by constants, which bit-blasting does not decide in time: measured 53 s per query) (small / medium / large / extreme incl. the type boundaries and negative deltas) that fix the varint lengths; metadata subsets %s; no user names and tags (string table), no compression' % (n, 'sampled' if q else 'all 16 x visible flag'), wall=900),
